@@ -51,6 +51,40 @@ def mkClient (flags : String) : Client :=
   { autoNetsOpt := flag flags 2, listeners := ⟨flag flags 0, flag flags 1⟩,
     incl := fixedIncl, excl := fixedExcl }
 
+/-- `fam/ip/width/fport/lport` -/
+def parseSubnet (t : String) : Option Subnet :=
+  match t.splitOn "/" with
+  | [f, ip, w, fp, lp] =>
+    match f.toInt?, w.toInt?, fp.toInt?, lp.toInt? with
+    | some f, some w, some fp, some lp => some ⟨f, bytesOfStr ip, w, fp, lp⟩
+    | _, _, _, _ => none
+  | _ => none
+
+/-- `-` or `s1;s2;…` -/
+def parseSubnets (t : String) : Option (List Subnet) :=
+  if t == "-" then some [] else (t.splitOn ";").mapM parseSubnet
+
+/-- The user's plan given on the input line as `I:<subnets> X:<subnets>` (the subnets of the command line). -/
+def mkClientWith (flags inc exc : String) : Option Client :=
+  match parseSubnets (inc.drop 2).toString, parseSubnets (exc.drop 2).toString with
+  | some i, some x => some { mkClient flags with incl := i, excl := x }
+  | _, _ => none
+
+def endTable (s : St) (c0 : Client) : St × List String :=
+  match s.raised with
+  | some e => (s, [s!"pkt raise {excName e}", "client -"])
+  | none =>
+    let rs := s.routes.reverse
+    let pkt := routePkt rs
+    let head := s!"pkt routes={rs.length} len={pkt.length} adler={adler pkt}"
+    match sendRoutes {} rs with
+    | .error e => (s, [s!"{head} raise {excName e}", "client -"])
+    | .ok tx =>
+      -- the frame queued by `Mux.send`, as the client's `Mux.handle` will see it
+      let frame := tx.outbuf.flatten
+      let c := c0.gotRoutesPacket (frame.drop Generated.HDR_LEN) fixedTail
+      (s, [s!"{head} sent frame={frame.length}", "client " ++ showClient c])
+
 def step (s : St) (line : String) : St × List String :=
   match words line with
   | ["ipmatch", hex] =>
@@ -108,20 +142,11 @@ def step (s : St) (line : String) : St × List String :=
       | .error e => ({ s with raised := some e }, [])
       | .ok none => (s, [])
       | .ok (some r) => if keepRoute r then ({ s with routes := r :: s.routes }, []) else (s, [])
-  | ["end", flags] =>
-    match s.raised with
-    | some e => (s, [s!"pkt raise {excName e}", "client -"])
-    | none =>
-      let rs := s.routes.reverse
-      let pkt := routePkt rs
-      let head := s!"pkt routes={rs.length} len={pkt.length} adler={adler pkt}"
-      match sendRoutes {} rs with
-      | .error e => (s, [s!"{head} raise {excName e}", "client -"])
-      | .ok tx =>
-        -- the frame queued by `Mux.send`, as the client's `Mux.handle` will see it
-        let frame := tx.outbuf.flatten
-        let c := (mkClient flags).gotRoutesPacket (frame.drop Generated.HDR_LEN) fixedTail
-        (s, [s!"{head} sent frame={frame.length}", "client " ++ showClient c])
+  | ["end", flags] => endTable s (mkClient flags)
+  | ["end", flags, inc, exc] =>
+    match mkClientWith flags inc exc with
+    | some c0 => endTable s c0
+    | none => (s, ["bad-op", "bad-op"])
   | ["client", flags, hex] =>
     match bytesOfHex hex with
     | none => (s, ["bad-op"])
